@@ -296,7 +296,7 @@ def _even_order_witness(cname, enc):
 
 
 def jobs(tier, seed):
-    js = [Job("state", "harness.c05:state_machine", tier=tier)]
+    js = [Job("eg-validate", "harness.egcommon:validate_eg", tier=tier), Job("state", "harness.c05:state_machine", tier=tier)]
     for i, tc in enumerate(E.toy_curves(tier)):
         if tc["n"] <= (29 if tier == "quick" else 131):
             js.append(Job("agree/%d" % i, "harness.c05:agreement", tier=tier, idx=i))
